@@ -131,7 +131,7 @@ def _r(rng, lo, hi, nd=2, size=None):
     return np.round(rng.uniform(lo, hi, size), nd).tolist() if size else round(float(rng.uniform(lo, hi)), nd)
 
 
-def make_case(name, seed, tier_all=True):
+def make_case(name, seed):
     """The child configuration (without file paths) of configuration ``name`` for ``seed``."""
     c = CONFIGS[name]
     rng = np.random.default_rng(subseed(seed, PID, "case", name))
@@ -630,7 +630,7 @@ def reference(base, scratch, rep):
     return {"K": final["n_exec"], "entries": _final_entries(final), "final": final, "events": events}
 
 
-def experiment(base, ref, scratch, rep, *, k, k1=None, tier="quick", count=True):
+def experiment(base, ref, scratch, rep, *, k, k1=None):
     """One crash point.  ``k1 is None``: file initially absent; else the file is the backup of a first crash k1."""
     scratch = Path(scratch)
     kind = "absent" if k1 is None else "prefilled"
@@ -762,7 +762,7 @@ def run_config(base, spec, rep, tier):
             rep.count("stopped_on_time_budget")
             break
         try:
-            experiment(base, ref, scratch, rep, k=k, k1=k1, tier=tier)
+            experiment(base, ref, scratch, rep, k=k, k1=k1)
         except ChildTrouble:
             continue
         rep.count("crash_points_enumerated")
@@ -813,7 +813,7 @@ def run_shard(spec, rep):
         except ChildTrouble:
             pass
         return
-    base = make_case(spec["config"], spec["seed"], tier == "thorough")
+    base = make_case(spec["config"], spec["seed"])
     try:
         run_config(base, spec, rep, tier)
     except ChildTrouble:
